@@ -395,6 +395,9 @@ class Ctx:
         k = n["k"]
         if k == "un" and n["op"] == "!":
             return self.cmp_fact(n["sub"], not truth, inline)
+        if k == "call" and n.get("ck") == "op" and n.get("op") == "!" and len(n.get("args", [])) == 1:
+            # operator! of a class type (boost::optional, smart pointers, iterators over sparse rows): the negation of its truth value
+            return self.cmp_fact(n["args"][0], not truth, inline)
         if k == "ref" and n["dk"] == "local" and inline and self.single_assignment(n["d"]) and (n.get("t") or "").replace("const ", "").strip() == "bool" \
                 and self.decls.get(n["d"], {}).get("init") is not None:
             return self.cmp_fact(self.decls[n["d"]]["init"], truth, inline)
